@@ -48,6 +48,12 @@ var effectOps = map[string]string{
 	modPath + "lib/libif.InterfaceAddr":                                "InterfaceAddr",
 	// resolvconf: the process environment and the file update
 	"os.Environ":                      "Environ",
+	"io/ioutil.TempFile":              "TempFile",
+	"os.CreateTemp":                   "TempFile",
+	"(*os.File).Name":                 "FileName",
+	"os.Chmod":                        "Chmod",
+	"os.Rename":                       "Rename",
+	"os.Remove":                       "Remove",
 	modPath + "lib/resolvconf.update": "Update",
 	// sockets and the ARP prober (lib/rsocks, lib/arpping seen from lib/server)
 	modPath + "lib/rsocks.GetIPRecvSock":  "OpenIPRecvSock",
@@ -150,8 +156,9 @@ func (x *X) envDef() string {
 	doc["NewEnv"] = "The world outside the translated constructor server.New: the interface's address and the lease database being configured."
 	doc["ResEnv"] = "The world outside the translated resolvconf.Run: the process environment and the atomic file update (C20)."
 	doc["SendEnv"] = "The world outside the translated sender goroutine of the client (sendMessage/sendSocket): sockets, the prober, the random source, the timer-or-cancel wait."
+	doc["FsEnv"] = "The file system as resolvconf.update sees it: one call per field, each of which may fail (C20)."
 	doc["RunEnv"] = "The world outside the translated receive loop and prober wrapper of lib/server: the receive socket, the handler goroutines it starts, the ARP prober."
-	for _, env := range []string{"Env", "DbEnv", "ArpEnv", "RunEnv", "CliEnv", "NewEnv", "ResEnv", "SendEnv"} {
+	for _, env := range []string{"Env", "DbEnv", "ArpEnv", "RunEnv", "CliEnv", "NewEnv", "ResEnv", "SendEnv", "FsEnv"} {
 		n := 0
 		for _, o := range ops {
 			if o.env == env {
@@ -184,6 +191,9 @@ func (c *fctx) envName() string {
 	}
 	if strings.HasSuffix(c.fi.pkg.PkgPath, "lib/client/dclient") && (c.fi.obj.Name() == "sendMessage" || c.fi.obj.Name() == "sendSocket") {
 		return "SendEnv"
+	}
+	if strings.HasSuffix(c.fi.pkg.PkgPath, "lib/resolvconf") && c.fi.obj.Name() == "update" {
+		return "FsEnv"
 	}
 	return envOfPkg(c.fi.pkg.PkgPath)
 }
